@@ -446,7 +446,95 @@ def _wrappers_part(ctx):
     wrappers.run_part(ctx)
 
 
-PARTS = [_wrappers_part]
+def release_oracle(impl, rng):
+    """Direct judgement of the release rule on real tensors (no Coq model).  Returns (cases, failures)."""
+    np, sg = impl.np, impl.synapgrad
+    fails = []
+    cases = 0
+    for trial in range(120):
+        impl.reset_modes()
+        leaves = [sg.Tensor(np.array([float(rng.randint(1, 4))]), requires_grad=rng.random() < 0.8) for _ in range(rng.randint(1, 3))]
+        if not any(l.requires_grad for l in leaves):
+            leaves[0].requires_grad = True
+        nodes = list(leaves)
+        inter = []
+        marked = set()            # tensors the user marked with retain_grad() (not read back from the implementation)
+        under_ctx = rng.random() < 0.2
+        for _ in range(rng.randint(2, 7)):
+            a, b = rng.choice(nodes), rng.choice(nodes)
+            t = rng.choice([lambda: a + b, lambda: a * b, lambda: a * 2.0, lambda: a - b])()
+            nodes.append(t); inter.append(t)
+            if t.requires_grad and rng.random() < 0.25:
+                t.retain_grad(); marked.add(id(t))
+        roots = [t for t in inter if t.requires_grad]
+        if not roots:
+            continue
+        history = []
+        for k in range(rng.randint(1, 3)):
+            root = rng.choice(roots)
+            # optionally extend the graph from a former root before the next call
+            if history and rng.random() < 0.5:
+                root = history[-1] * 3.0
+                nodes.append(root); inter.append(root)
+            mode = under_ctx and rng.random() < 0.5
+            if mode:
+                with sg.retain_grads():
+                    root.backward()
+            else:
+                root.backward()
+            history.append(root)
+            cases += 1
+            # reachable set
+            seen, stack = set(), [root]
+            reach = []
+            while stack:
+                n = stack.pop()
+                if id(n) in seen:
+                    continue
+                seen.add(id(n)); reach.append(n)
+                stack.extend(n._children)
+            for t in reach:
+                if not t.requires_grad:
+                    if t._grad is not None:
+                        fails.append("a tensor that does not require grad acquired a .grad")
+                    continue
+                keeps = t.is_leaf or t is root or id(t) in marked or mode
+                if keeps and t._grad is None:
+                    fails.append("a leaf / root / retained tensor has no .grad after backward")
+                if not keeps and t._grad is not None:
+                    fails.append("an intermediate result (not the root, not retained, retain mode off) kept its .grad after backward #%d%s"
+                                 % (k + 1, " (it was the root of an earlier call)" if any(t is h for h in history[:-1]) else ""))
+            if fails:
+                return cases, fails
+    impl.reset_modes()
+    return cases, fails
+
+
+def _release_part(ctx):
+    from lib import engine_k as K
+    from lib import impl
+    ctx.build_props("Props/C07_release.v", extra_targets=["Engine/History.vo"])
+    n = 150 if ctx.quick else 1500
+    hs = [K.gen_history(ctx.rng) for _ in range(n)]
+    execs, kept = [], []
+    for steps in hs:
+        E = K.execute(steps)
+        if K.usable(E):
+            execs.append(E); kept.append(steps)
+    tm, cm, errs = K.run_corr(ctx, execs, "rel", chunk=240)
+    mism = list(errs) + [{"history": K.describe(kept[i])} for i in tm]
+    ctx.tie("release rule: engine histories (which buffers exist after every event)", "correspondence", len(execs),
+            len({repr(k) for k in kept}), mism,
+            note="random histories of graph construction / backward from any node / retain_grad / retain_grads / resets, compared with Engine/History.v after every event")
+    cases, fails = release_oracle(impl, ctx.rng)
+    ctx.extra["release_oracle_backward_calls"] = cases
+    if fails:
+        ctx.witness("Tensor.backward/release", "release-rule", {"seed": ctx.seed, "note": "random small graphs, see checks/c07.py release_oracle"},
+                    "after backward leaves keep their gradient; intermediate results other than the root release theirs unless retain_grad / retain_grads",
+                    {"problem": fails[0]})
+
+
+PARTS = [_wrappers_part, _release_part]
 
 FINISH = dict(rule="event sequences enumerated exhaustively up to the stated bound (distinct after truncation at the first raise; "
                    "non-trivial = at least two Enter/Exit events); with-programs: distinct event lists; tables: every row")
